@@ -3,10 +3,16 @@
    and what the certificate checkers establish when they answer [true]; the harness runs the extracted
    checkers on every generated input (certificate built independently of koala) and on koala's lattice.
    NOT covered by a theorem (S only, exact rational arithmetic in the harness): one plaquette per seed,
-   containment, area sum, two different plaquettes per edge, Lloyd; the post-processing code itself
-   (no VoronoiPost model); geometry fact G3 (empty circumdiscs + side pairing + area = Delaunay, dual = Voronoi). *)
+   containment, area sum, two different plaquettes per edge, Lloyd; geometry fact G3 (empty circumdiscs +
+   side pairing + area = Delaunay, dual = Voronoi).
+   The post-processing code (voronization.py:82-204) IS modelled (Model/VoronoiPost.v, tied to the code by the
+   correspondence run K of harness/c03.py on the same scipy Voronoi record); the C03_post_* theorems at the end
+   of this file are about that model.  NOT proved: post_correct (the model's output passes check_dual whenever the
+   Voronoi record is the exact Voronoi diagram of a periodic point set). *)
 From Coq Require Import List ZArith Bool Arith QArith.
 From Koala Require Import Model.Lattice Model.Delaunay Proofs.DelaunayFacts.
+From Koala Require Import Model.VoronoiPost Proofs.VoronoiPostFacts.
+From Coq Require Import Sorted.
 Import ListNotations.
 Open Scope Z_scope.
 
@@ -146,3 +152,198 @@ Example C03_check_dual_nonvacuous :
   check_dual ex_plain_S ex_plain_tol false ex_plain_pts ex_plain_C ex_plain_L ex_plain_vt = true /\
   check_dual ex_shift_S ex_shift_tol true ex_shift_pts ex_shift_C ex_shift_L ex_shift_vt = true.
 Proof. split; vm_compute; reflexivity. Qed.
+
+(* ==================================================================================================
+   The post-processing of voronization.generate_lattice (Model/VoronoiPost.v), everything after
+   `vor = Voronoi(points)`.  Unbounded statements about the model; the model is tied to the code by K.
+   Not covered: that scipy's record IS the Voronoi diagram (Qhull), float rounding of the centroid
+   (a+b+c)/3 and of the kd-tree query point (K compares to 1e-12 and skips ties within 1e-9).
+   ================================================================================================== *)
+
+(* anchor "map outer endpoint back by nearest-vertex lookup": the model of KDTree.query(k=1) returns an index
+   in range of a vertex of minimal squared distance, the first such *)
+Theorem C03_post_nearest_spec : forall vs q, vs <> [] ->
+  (nearest vs q < length vs)%nat /\
+  (forall j, (j < length vs)%nat -> dist2 (nth (nearest vs q) vs (0, 0)) q <= dist2 (nth j vs (0, 0)) q) /\
+  (forall j, (j < nearest vs q)%nat -> dist2 (nth (nearest vs q) vs (0, 0)) q < dist2 (nth j vs (0, 0)) q).
+Proof. exact nearest_spec. Qed.
+Print Assumptions C03_post_nearest_spec.
+
+(* the margin reported to the harness (used to skip near ties): winner's distance, and a lower bound of the
+   distance of every other vertex *)
+Theorem C03_post_nearest_margin : forall vs q bd s, vs <> [] ->
+  margin_of (nearest_info vs q) = (bd, Some s) ->
+  bd = dist2 (nth (nearest vs q) vs (0, 0)) q /\
+  forall j, (j < length vs)%nat -> j <> nearest vs q -> s <= dist2 (nth j vs (0, 0)) q.
+Proof. exact nearest_margin_spec. Qed.
+Print Assumptions C03_post_nearest_margin.
+
+(* anchor "classify ridges as inside / crossing / outside the unit cell (0,1]": every returned ridge is a finite
+   Voronoi ridge with both ends in (0,S]^2 (returned unchanged, crossing 0) or with exactly one end there
+   (returned as [cross_edge]) *)
+Theorem C03_post_edges_origin : forall S vs rv e, In e (pbc_edges S vs rv) ->
+  (exists r, In r rv /\ finite r = true /\ count_in S vs r = 2%nat /\ e = (to_nat_pair r, (0, 0))) \/
+  (exists r, In r rv /\ finite r = true /\ count_in S vs r = 1%nat /\ e = cross_edge S vs (to_nat_pair r)).
+Proof. exact pbc_edges_origin. Qed.
+Print Assumptions C03_post_edges_origin.
+
+(* ... and none is lost: inside ridges are all returned, a crossing ridge is represented by an edge of its class *)
+Theorem C03_post_edges_complete : forall S vs rv r, In r rv -> finite r = true ->
+  (count_in S vs r = 2%nat -> In (to_nat_pair r, (0, 0)) (pbc_edges S vs rv)) /\
+  (count_in S vs r = 1%nat -> exists e, In e (pbc_edges S vs rv) /\
+                                  edge_key e = edge_key (cross_edge S vs (to_nat_pair r))).
+Proof. exact pbc_edges_complete. Qed.
+Print Assumptions C03_post_edges_complete.
+
+(* anchor "crossing vector from ceil of endpoints; nearest-vertex lookup": for the crossing ridge with sorted
+   ends lo < hi at positions plo, phi: the returned crossing is cell(phi) - cell(plo); the two query points are
+   the lattice translates of plo, phi into the cell (0,S]^2; the returned ends j, k are nearest to them; and when
+   those translates are themselves vertices (replication exact: the property's premise) then j, k sit exactly
+   there, both in the cell, and  pos[k] + S*crossing - pos[j] = phi - plo : the periodic edge is the ridge. *)
+Theorem C03_post_cross_edge_geometry : forall S vs r, 0 < S ->
+  let lo := Nat.min (fst r) (snd r) in
+  let hi := Nat.max (fst r) (snd r) in
+  let plo := nth lo vs (0, 0) in
+  let phi := nth hi vs (0, 0) in
+  let e := cross_edge S vs r in
+  let j := fst (fst e) in let k := snd (fst e) in let c := snd e in
+  c = (cell_of (fst phi) S - cell_of (fst plo) S, cell_of (snd phi) S - cell_of (snd plo) S) /\
+  in_unit S (wrap S plo) = true /\ in_unit S (wrap S phi) = true /\
+  (forall i, (i < length vs)%nat -> dist2 (nth j vs (0, 0)) (wrap S plo) <= dist2 (nth i vs (0, 0)) (wrap S plo)) /\
+  (forall i, (i < length vs)%nat -> dist2 (nth k vs (0, 0)) (wrap S phi) <= dist2 (nth i vs (0, 0)) (wrap S phi)) /\
+  (In (wrap S plo) vs -> In (wrap S phi) vs ->
+     nth j vs (0, 0) = wrap S plo /\ nth k vs (0, 0) = wrap S phi /\
+     in_unit S (nth j vs (0, 0)) = true /\ in_unit S (nth k vs (0, 0)) = true /\
+     fst (nth k vs (0, 0)) + S * fst c - fst (nth j vs (0, 0)) = fst phi - fst plo /\
+     snd (nth k vs (0, 0)) + S * snd c - snd (nth j vs (0, 0)) = snd phi - snd plo).
+Proof. exact cross_edge_geometry. Qed.
+Print Assumptions C03_post_cross_edge_geometry.
+
+(* the end of a crossing ridge that lies in the cell is mapped to a vertex at the same position *)
+Theorem C03_post_inner_end_fixed : forall S vs i, 0 < S -> (i < length vs)%nat ->
+  in_unit S (nth i vs (0, 0)) = true ->
+  nth (nearest vs (wrap S (nth i vs (0, 0)))) vs (0, 0) = nth i vs (0, 0).
+Proof. exact cross_edge_inner_end. Qed.
+Print Assumptions C03_post_inner_end_fixed.
+
+(* anchor "orientation-aware de-duplication": np.unique(edge_key, axis=0, return_index=True) as modelled keeps
+   only given edges, one for every key, exactly one, the first in ridge order, in increasing key order *)
+Theorem C03_post_dedup_spec : forall es : list edge,
+  let d := dedup_edges es in
+  (forall e, In e d -> In e es) /\
+  (forall e, In e es -> exists e', In e' d /\ edge_key e' = edge_key e) /\
+  (forall e e', In e d -> In e' d -> edge_key e = edge_key e' -> e = e') /\
+  (forall e, In e d -> exists l1 l2, es = l1 ++ e :: l2 /\ forall e', In e' l1 -> edge_key e' <> edge_key e) /\
+  StronglySorted klt (map edge_key d).
+Proof. exact dedup_edges_spec. Qed.
+Print Assumptions C03_post_dedup_spec.
+
+(* ... and the key is exactly "the unordered pair with the crossing up to the matching sign": two edges have the
+   same key iff they are equal or reverse to each other ((j,k,c) ~ (k,j,-c)), for j <> k *)
+Theorem C03_post_edge_key_class : forall e e', ~ is_loop e ->
+  (edge_key e' = edge_key e <-> e' = e \/ e' = rev_edge e).
+Proof. exact edge_key_class. Qed.
+Print Assumptions C03_post_edge_key_class.
+
+(* so: exactly one representative of each class {(j,k,c), (k,j,-c)} of crossing ridges survives (keeps parallel
+   edges that wind differently: different c, different class) *)
+Theorem C03_post_dedup_classes : forall (es : list edge) e, In e es -> ~ is_loop e ->
+  (In e (dedup_edges es) \/ In (rev_edge e) (dedup_edges es)) /\
+  (forall e', In e' (dedup_edges es) -> e' = e \/ e' = rev_edge e ->
+     forall e'', In e'' (dedup_edges es) -> e'' = e \/ e'' = rev_edge e -> e'' = e').
+Proof. exact dedup_edges_classes. Qed.
+Print Assumptions C03_post_dedup_classes.
+
+(* the class statement is FALSE for self-loops: (j,j,c) and (j,j,-c) get different keys, both would be kept.
+   (Outside the property's domain for N >= 2: needs a Delaunay triangle adjacent to its own translate.) *)
+Theorem C03_post_dedup_selfloop_refuted : exists e, is_loop e /\ edge_key (rev_edge e) <> edge_key e.
+Proof. exact edge_key_loop_not_identified. Qed.
+Print Assumptions C03_post_dedup_selfloop_refuted.
+
+(* anchor "re-indexing of the surviving vertices": for ANY enumeration `order` that satisfies the contract of
+   list(set(.)) (checked by the model) the enumeration has no repetition and consists exactly of the ends of the
+   returned ridges; new_vertices[n] = vor.vertices[order[n]]; every new index is in range and is the position of
+   the old index in the enumeration; crossings are copied *)
+Theorem C03_post_reindex_spec : forall vs order (es : list edge) ps ed cr,
+  reindex vs order es = Ok (ps, ed, cr) ->
+  NoDup order /\ (forall x, In x (edge_ends es) <-> In x order) /\
+  ps = map (fun i => nth i vs (0, 0)) order /\ length ps = length order /\
+  length ed = length es /\ cr = map snd es /\
+  forall i, (i < length es)%nat ->
+    let e := nth i es edge0 in
+    let jk := nth i ed (0%nat, 0%nat) in
+    (fst jk < length ps)%nat /\ (snd jk < length ps)%nat /\
+    nth (fst jk) order 0%nat = fst (fst e) /\ nth (snd jk) order 0%nat = snd (fst e) /\
+    nth (fst jk) ps (0, 0) = nth (fst (fst e)) vs (0, 0) /\
+    nth (snd jk) ps (0, 0) = nth (snd (fst e)) vs (0, 0).
+Proof. exact reindex_spec. Qed.
+Print Assumptions C03_post_reindex_spec.
+
+(* with the increasing enumeration the re-indexing cannot fail and the new index is the RANK of the old index
+   among the surviving vertices.  (CPython enumerates the set in hash order, not increasing: K feeds the model the
+   enumeration CPython produces and the model checks the contract.) *)
+Theorem C03_post_reindex_sorted_rank : forall vs (es : list edge),
+  exists ps ed cr, reindex vs (sorted_nodup (edge_ends es)) es = Ok (ps, ed, cr) /\
+  forall i, (i < length es)%nat ->
+    let e := nth i es edge0 in
+    nth i ed (0%nat, 0%nat) =
+      (length (filter (fun y => (y <? fst (fst e))%nat) (sorted_nodup (edge_ends es))),
+       length (filter (fun y => (y <? snd (fst e))%nat) (sorted_nodup (edge_ends es)))).
+Proof. exact reindex_sorted. Qed.
+Print Assumptions C03_post_reindex_sorted_rank.
+
+(* anchor "optional shift of each vertex to the centroid of its three seeds": exactly three ridges touch the
+   vertex, they separate exactly three seeds i < j < k of the replicated point array, and the new position is
+   (p_i + p_j + p_k) / 3 (numerator here, the scale is multiplied by 3 in C03_post_shifted_vertices) *)
+Theorem C03_post_centroid3_spec : forall points rv rp v c, centroid3 points rv rp v = Ok c ->
+  length (adjacent_seeds (Z.of_nat v) rv rp) = 3%nat /\
+  exists i j k, sorted_nodup (concat (adjacent_seeds (Z.of_nat v) rv rp)) = [i; j; k] /\
+    (i < j < k)%nat /\ (k < length points)%nat /\
+    (forall x, In x [i; j; k] <-> In x (concat (adjacent_seeds (Z.of_nat v) rv rp))) /\
+    c = pt_add (pt_add (nth i points (0, 0)) (nth j points (0, 0))) (nth k points (0, 0)).
+Proof. exact centroid3_spec. Qed.
+Print Assumptions C03_post_centroid3_spec.
+
+Theorem C03_post_shifted_vertices : forall shift S points v S' vs,
+  shifted_vertices shift S points v = Ok (S', vs) ->
+  length vs = length (vertices v) /\
+  (shift = false -> S' = S /\ vs = vertices v) /\
+  (shift = true -> S' = 3 * S /\
+     forall i, (i < length vs)%nat ->
+       centroid3 points (ridge_vertices v) (ridge_points v) i = Ok (nth i vs (0, 0))).
+Proof. exact shifted_vertices_spec. Qed.
+Print Assumptions C03_post_shifted_vertices.
+
+(* the whole function is the composition of the pieces above *)
+Theorem C03_post_process_inv : forall order_of shift S points v S' ps ed cr,
+  post_process order_of shift S points v = Ok (S', (ps, ed, cr)) ->
+  exists vs,
+    shifted_vertices shift S points v = Ok (S', vs) /\
+    (forall r, In r (ridge_vertices v) -> ridge_wf (length (vertices v)) r = true) /\
+    let es := pbc_edges S' vs (ridge_vertices v) in
+    reindex vs (order_of (edge_ends es)) es = Ok (ps, ed, cr).
+Proof. exact post_process_inv. Qed.
+Print Assumptions C03_post_process_inv.
+
+Theorem C03_post_process_sorted_total : forall shift S points v S' vs,
+  vor_wf (length points) v = Ok tt -> shifted_vertices shift S points v = Ok (S', vs) ->
+  exists out, post_process_sorted shift S points v = Ok (S', out).
+Proof. exact post_process_sorted_total. Qed.
+Print Assumptions C03_post_process_sorted_total.
+
+(* ---- non-vacuity: a cell of side 4 with two vertices inside, their images one cell to the right / left, an
+   inside ridge, the two copies of the crossing ridge (de-duplicated to one) and a ridge to infinity *)
+Definition ex_post_vor : vor := mkVor
+  [(1, 1); (3, 3); (5, 1); (-1, 3)]
+  [(0, 1); (1, 2); (3, 0); (-1, 2)]
+  [(0, 1); (1, 2); (2, 0); (0, 2)]%nat.
+Example C03_post_process_nonvacuous :
+  post_process_sorted false 4 [] ex_post_vor =
+    Ok (4, ([(1, 1); (3, 3)], [(0, 1); (1, 0)]%nat, [(0, 0); (1, 0)])) /\
+  crossing_edges 4 (vertices ex_post_vor) (ridge_vertices ex_post_vor) =
+    [((1, 0)%nat, (1, 0)); ((0, 1)%nat, (-1, 0))] /\
+  In (wrap 4 (5, 1)) (vertices ex_post_vor) /\ In (wrap 4 (-1, 3)) (vertices ex_post_vor).
+Proof. vm_compute. repeat split; auto. Qed.
+Example C03_post_centroid3_nonvacuous :
+  centroid3 [(0, 0); (3, 0); (0, 3)] [(0, 1); (0, 2); (0, -1)] [(0, 1); (1, 2); (2, 0)]%nat 0 = Ok (3, 3).
+Proof. vm_compute. reflexivity. Qed.
